@@ -1,0 +1,122 @@
+//go:build verif
+
+// C01, completeness half (owner: con-c01b): result SHAPE of the server-side proof generators.
+//
+// The client-side verifiers (contracts in zz_verif_contracts_c01.go) accept a proof when the conjunction of their
+// `strong` postcondition holds. That conjunction has two kinds of conjuncts: digest equalities (the history
+// invariant of the database: out of scope here) and SHAPE facts: which sub-proofs must be present, which ids they
+// carry and how long they are, as a function of the two header ids and their BlTxID. The contracts below say that a
+// generator that returns err == nil delivers every shape fact its verifier demands. They are taken from the
+// verifier's code / converse contract, NOT from what the generators do today:
+//
+//   VerifyDualProof(proof, src, tgt, ..) with S = proof.SourceTxHeader, T = proof.TargetTxHeader demands
+//     proof, S, T non-nil; S.ID == src != 0; T.ID == tgt; src <= tgt;
+//     src < T.BlTxID  ==> VerifyInclusion(proof.InclusionProof, src, T.BlTxID, ..): 1 <= src <= T.BlTxID, len > 0
+//     S.BlTxID > 0    ==> VerifyConsistency(proof.ConsistencyProof, S.BlTxID, T.BlTxID, ..):
+//                         S.BlTxID <= T.BlTxID and (S.BlTxID < T.BlTxID ==> len > 0)
+//     T.BlTxID > 0    ==> VerifyLastInclusion(proof.LastInclusionProof, T.BlTxID, ..): T.BlTxID >= 1 (no shape demand)
+//     VerifyLinearProof(proof.LinearProof, max(src, T.BlTxID), tgt, ..): non-nil, SourceTxID/TargetTxID equal to these
+//                         ids, first id != 0 and <= tgt, len(Terms) == tgt - first + 1 > 0
+//     VerifyLinearAdvanceProof(proof.LinearAdvanceProof, S.BlTxID, min(src, T.BlTxID), ..): with end = that minimum:
+//                         S.BlTxID <= end and (end <= S.BlTxID+1 or (non-nil and len(LinearProofTerms) == end - S.BlTxID
+//                         and len(InclusionProofs) == end - S.BlTxID - 1))     -- ALSO when S.BlTxID == 0
+//   VerifyDualProofV2 demands proof, S, T non-nil, src != 0, src <= tgt, S.BlTxID == src-1, T.BlTxID == tgt-1 and for
+//     src != tgt: VerifyInclusion(InclusionProof, src, T.BlTxID, ..) and
+//     VerifyConsistency(ConsistencyProof, src == 1 ? 1 : S.BlTxID, T.BlTxID, ..) with the same shape demands as above.
+//
+// Header ids: no transaction has id 0; DualProof (unlike DualProofV2) does not reject a source header with ID == 0,
+// so its clauses that need src != 0 carry that as a hypothesis on the input header.
+package store
+
+//@ func maxUint64
+//@   pure
+//@   assigns nothing
+//@   ensures def: (a <= b ==> result == b) && (a > b ==> result == a)
+
+//@ func minUint64
+//@   pure
+//@   assigns nothing
+//@   ensures def: (a >= b ==> result == b) && (a < b ==> result == a)
+
+// The tx pool hands out / takes back scratch *Tx holders: pool-internal state only (assumed frame).
+//@ func (*ImmuStore).fetchAllocTx
+//@   assigns internal
+
+//@ func (*ImmuStore).releaseAllocTx
+//@   assigns internal
+
+// A reader is only created for a real transaction id and a non-nil holder; it is bound to the store.
+//@ func (*ImmuStore).NewTxReader
+//@   assigns internal
+//@   ensures ok: r1 == nil ==> r0 != nil && r0.st != nil && r0._tx != nil && initialTxID != 0
+
+// A header read back from the transaction log has been parsed by (*TxHeader).ReadFrom (version 0 or 1).
+// Assumed (result shape + frame), see the part file.
+//@ func (*ImmuStore).ReadTxHeader
+//@   assigns internal
+//@   ensures hdr: r1 == nil ==> r0 != nil && (r0.Version == 0 || r0.Version == 1)
+
+// (*Tx).Header returns a fresh copy of the holder's header (same version: innerHash/Alh can hash it).
+//@ func (*Tx).Header
+//@   requires hdr: tx.header != nil
+//@   assigns nothing
+//@   ensures copy: result != nil && fresh(result) && result.Version == tx.header.Version && result.ID == tx.header.ID
+//@   &&   result.BlTxID == tx.header.BlTxID && result.NEntries == tx.header.NEntries
+
+// LinearProof: what VerifyLinearProof demands of the proof object (ids, order, number of terms).
+//@ func (*ImmuStore).LinearProof
+//@   assigns internal
+//@   ensures order: r1 == nil ==> sourceTxID != 0 && sourceTxID <= targetTxID
+//@   ensures nonnil: r1 == nil ==> r0 != nil
+//@   ensures ids: r1 == nil ==> r0.SourceTxID == sourceTxID && r0.TargetTxID == targetTxID
+//@   ensures length: r1 == nil ==> uint64(len(r0.Terms)) == targetTxID - sourceTxID + 1 && len(r0.Terms) > 0
+//@   loop 1 invariant reader: r.st != nil && r._tx != nil
+
+// LinearAdvanceProof: what VerifyLinearAdvanceProof(proof, sourceTxID, targetTxID, ..) demands: the interval is
+// ordered; a proof object is present exactly when the verifier dereferences it (targetTxID > sourceTxID+1), with
+// targetTxID-sourceTxID linear terms and one inclusion proof less.
+//@ func (*ImmuStore).LinearAdvanceProof
+//@   assigns internal
+//@   ensures order: r1 == nil ==> sourceTxID <= targetTxID
+//@   ensures needed: r1 == nil && !(targetTxID <= sourceTxID+1) ==> r0 != nil
+//@   &&   len(r0.LinearProofTerms) == int(targetTxID-sourceTxID) && len(r0.InclusionProofs) == int(targetTxID-sourceTxID)-1
+//@   loop 1 invariant reader: r.st != nil && r._tx != nil
+
+// DualProof: the shape hypotheses of VerifyDualProof's `strong` clause, one labelled clause per verifier step.
+//@ func (*ImmuStore).DualProof
+//@   ensures hdrs: err == nil ==> proof != nil && sourceTxHdr != nil && targetTxHdr != nil
+//@   &&   proof.SourceTxHeader == sourceTxHdr && proof.TargetTxHeader == targetTxHdr
+//@   ensures order: err == nil ==> sourceTxHdr.ID <= targetTxHdr.ID
+//@   ensures step4_inclusion_shape: err == nil && sourceTxHdr.ID != 0 && sourceTxHdr.ID < targetTxHdr.BlTxID ==> len(proof.InclusionProof) > 0
+//@   ensures step5_consistency_shape: err == nil && sourceTxHdr.BlTxID > 0 ==> sourceTxHdr.BlTxID <= targetTxHdr.BlTxID
+//@   &&   (sourceTxHdr.BlTxID < targetTxHdr.BlTxID ==> len(proof.ConsistencyProof) > 0)
+//@   ensures step7_linear_in_tree: err == nil && sourceTxHdr.ID < targetTxHdr.BlTxID ==> proof.LinearProof != nil
+//@   &&   proof.LinearProof.SourceTxID == targetTxHdr.BlTxID && proof.LinearProof.TargetTxID == targetTxHdr.ID
+//@   &&   targetTxHdr.BlTxID != 0 && targetTxHdr.BlTxID <= targetTxHdr.ID
+//@   &&   uint64(len(proof.LinearProof.Terms)) == targetTxHdr.ID - targetTxHdr.BlTxID + 1 && len(proof.LinearProof.Terms) > 0
+//@   ensures step7_linear_outside: err == nil && !(sourceTxHdr.ID < targetTxHdr.BlTxID) ==> proof.LinearProof != nil
+//@   &&   proof.LinearProof.SourceTxID == sourceTxHdr.ID && proof.LinearProof.TargetTxID == targetTxHdr.ID
+//@   &&   sourceTxHdr.ID != 0 && sourceTxHdr.ID <= targetTxHdr.ID
+//@   &&   uint64(len(proof.LinearProof.Terms)) == targetTxHdr.ID - sourceTxHdr.ID + 1 && len(proof.LinearProof.Terms) > 0
+//@   ensures step8_advance_in_tree: err == nil && sourceTxHdr.ID < targetTxHdr.BlTxID ==> sourceTxHdr.BlTxID <= sourceTxHdr.ID
+//@   &&   (sourceTxHdr.ID <= sourceTxHdr.BlTxID+1 || (proof.LinearAdvanceProof != nil
+//@   &&     len(proof.LinearAdvanceProof.LinearProofTerms) == int(sourceTxHdr.ID-sourceTxHdr.BlTxID)
+//@   &&     len(proof.LinearAdvanceProof.InclusionProofs) == int(sourceTxHdr.ID-sourceTxHdr.BlTxID)-1))
+//@   ensures step8_advance_outside: err == nil && !(sourceTxHdr.ID < targetTxHdr.BlTxID) ==> sourceTxHdr.BlTxID <= targetTxHdr.BlTxID
+//@   &&   (targetTxHdr.BlTxID <= sourceTxHdr.BlTxID+1 || (proof.LinearAdvanceProof != nil
+//@   &&     len(proof.LinearAdvanceProof.LinearProofTerms) == int(targetTxHdr.BlTxID-sourceTxHdr.BlTxID)
+//@   &&     len(proof.LinearAdvanceProof.InclusionProofs) == int(targetTxHdr.BlTxID-sourceTxHdr.BlTxID)-1))
+
+// DualProofV2: the shape hypotheses of VerifyDualProofV2's `strong` clause.
+//@ func (*ImmuStore).DualProofV2
+//@   ensures hdrs: err == nil ==> proof != nil && sourceTxHdr != nil && targetTxHdr != nil
+//@   &&   proof.SourceTxHeader == sourceTxHdr && proof.TargetTxHeader == targetTxHdr
+//@   ensures order: err == nil ==> sourceTxHdr.ID != 0 && sourceTxHdr.ID <= targetTxHdr.ID
+//@   ensures linking: err == nil ==> sourceTxHdr.BlTxID == sourceTxHdr.ID-1 && targetTxHdr.BlTxID == targetTxHdr.ID-1
+//@   ensures inclusion_shape: err == nil && sourceTxHdr.ID != targetTxHdr.ID ==> sourceTxHdr.ID <= targetTxHdr.BlTxID
+//@   &&   (sourceTxHdr.ID < targetTxHdr.BlTxID ==> len(proof.InclusionProof) > 0)
+//@   ensures consistency_first_shape: err == nil && sourceTxHdr.ID != targetTxHdr.ID && sourceTxHdr.ID == 1 ==>
+//@        sourceTxHdr.ID <= targetTxHdr.BlTxID && (sourceTxHdr.ID < targetTxHdr.BlTxID ==> len(proof.ConsistencyProof) > 0)
+//@   ensures consistency_shape: err == nil && sourceTxHdr.ID != targetTxHdr.ID && sourceTxHdr.ID != 1 ==>
+//@        1 <= sourceTxHdr.BlTxID && sourceTxHdr.BlTxID <= targetTxHdr.BlTxID
+//@   &&   (sourceTxHdr.BlTxID < targetTxHdr.BlTxID ==> len(proof.ConsistencyProof) > 0)
